@@ -5,8 +5,8 @@ package main
 //   c11m: the handle table (Srv/Handles.v hstep)   - issued handles, per-request failure, close / transfer-error counts
 
 import (
-	"encoding/binary"
 	"bytes"
+	"encoding/binary"
 	"fmt"
 	"io"
 	"os"
